@@ -254,4 +254,160 @@ theorem logsum_comm_ext (a b : Ext ℝ) : logsum a b = logsum b a := by
     | simp [logsum, Ext.beq, Ext.lt, Ext.sub, Ext.exp', Ext.add, Ext.log']
 end ExtR
 
+/-! ### logSumExp over finite values and log-zeros -/
+
+section ExtLse
+open Ext
+
+/-- the finite entries of a vector of extended values -/
+def finPart : List (Ext ℝ) → List ℝ
+  | [] => []
+  | Ext.fin x :: l => x :: finPart l
+  | _ :: l => finPart l
+
+/-- only finite values and log-zeros -/
+def LogVals (v : List (Ext ℝ)) : Prop := ∀ e ∈ v, e = Ext.ninf ∨ ∃ x, e = Ext.fin x
+
+theorem LogVals.tail {e : Ext ℝ} {l : List (Ext ℝ)} (h : LogVals (e :: l)) : LogVals l :=
+  fun x hx => h x (List.mem_cons_of_mem _ hx)
+
+noncomputable abbrev stepMax (m y : Ext ℝ) : Ext ℝ := if LogArith.ltb m y then y else m
+noncomputable abbrev stepMaxR (m y : ℝ) : ℝ := if LogArith.ltb m y then y else m
+
+theorem stepMax_fin_ninf (a : ℝ) : stepMax (Ext.fin a) Ext.ninf = Ext.fin a := by
+  simp [stepMax, Ext.lt]
+theorem stepMax_fin_fin (a x : ℝ) : stepMax (Ext.fin a) (Ext.fin x) = Ext.fin (stepMaxR a x) := by
+  simp only [stepMax, stepMaxR, ext_ltb, Ext.lt]
+  by_cases h : LogArith.ltb a x = true <;> simp [h]
+theorem stepMax_ninf_ninf : stepMax (Ext.ninf : Ext ℝ) Ext.ninf = Ext.ninf := by
+  simp [stepMax, Ext.lt]
+theorem stepMax_ninf_fin (x : ℝ) : stepMax (Ext.ninf : Ext ℝ) (Ext.fin x) = Ext.fin x := by
+  simp [stepMax, Ext.lt]
+
+theorem foldMax_fin (l : List (Ext ℝ)) (hl : LogVals l) (a : ℝ) :
+    l.foldl stepMax (Ext.fin a) = Ext.fin ((finPart l).foldl stepMaxR a) := by
+  induction l generalizing a with
+  | nil => rfl
+  | cons e es ih =>
+    rcases hl e (by simp) with rfl | ⟨x, rfl⟩
+    · rw [List.foldl_cons, stepMax_fin_ninf]; exact ih hl.tail a
+    · rw [List.foldl_cons, stepMax_fin_fin]; exact ih hl.tail _
+
+theorem foldMax_ninf (l : List (Ext ℝ)) (hl : LogVals l) :
+    l.foldl stepMax Ext.ninf =
+      match finPart l with
+      | [] => Ext.ninf
+      | x :: xs => Ext.fin (xs.foldl stepMaxR x) := by
+  induction l with
+  | nil => rfl
+  | cons e es ih =>
+    rcases hl e (by simp) with rfl | ⟨x, rfl⟩
+    · rw [List.foldl_cons, stepMax_ninf_ninf]; exact ih hl.tail
+    · rw [List.foldl_cons, stepMax_ninf_fin]; exact foldMax_fin es hl.tail x
+
+theorem vmax_ext (v : List (Ext ℝ)) (hv : LogVals v) (m : ℝ) (hm : vmax (finPart v) = .ok m) :
+    vmax v = .ok (Ext.fin m) := by
+  cases v with
+  | nil => simp [finPart, vmax, extremum] at hm
+  | cons e es =>
+    simp only [vmax, extremum]
+    rcases hv e (by simp) with rfl | ⟨x, rfl⟩
+    · have := foldMax_ninf es hv.tail
+      simp only [finPart] at hm
+      cases hf : finPart es with
+      | nil => rw [hf] at hm; simp [vmax, extremum] at hm
+      | cons y ys =>
+        rw [hf] at this hm
+        simp only [vmax, extremum, Except.ok.injEq] at hm
+        rw [← hm]; exact congrArg Except.ok this
+    · have := foldMax_fin es hv.tail x
+      simp only [finPart, vmax, extremum, Except.ok.injEq] at hm
+      rw [← hm]; exact congrArg Except.ok this
+
+/-- one term of the shifted sum -/
+noncomputable def termR (m : ℝ) : Ext ℝ → ℝ
+  | Ext.fin x => Real.exp (x - m)
+  | _ => 0
+
+theorem term_ext (e : Ext ℝ) (he : e = Ext.ninf ∨ ∃ x, e = Ext.fin x) (m : ℝ) :
+    LogArith.exp (e - Ext.fin m) = Ext.fin (termR m e) := by
+  rcases he with rfl | ⟨x, rfl⟩
+  · simp [Ext.sub, Ext.exp', termR]
+  · simp [Ext.sub, Ext.exp', termR]
+
+theorem add_term_ext (a : ℝ) (e : Ext ℝ) (he : e = Ext.ninf ∨ ∃ x, e = Ext.fin x) (m : ℝ) :
+    Ext.fin a + LogArith.exp (e - Ext.fin m) = Ext.fin (a + termR m e) := by
+  rw [term_ext e he m]; rfl
+
+theorem foldSum_ext (l : List (Ext ℝ)) (hl : LogVals l) (m a : ℝ) :
+    l.foldl (fun y z => y + LogArith.exp (z - Ext.fin m)) (Ext.fin a) =
+      Ext.fin (a + ((finPart l).map (fun x => Real.exp (x - m))).sum) := by
+  induction l generalizing a with
+  | nil => simp [finPart]
+  | cons e es ih =>
+    rw [List.foldl_cons, add_term_ext a e (hl e (by simp)) m, ih hl.tail]
+    rcases hl e (by simp) with rfl | ⟨x, rfl⟩
+    · simp [finPart, termR]
+    · simp only [finPart, termR, List.map_cons, List.sum_cons]; congr 1; ring
+
+theorem expSum_ext (v : List (Ext ℝ)) (hv : LogVals v) (hne : v ≠ []) (m : ℝ) :
+    expSum (Ext.fin m) v = .ok (Ext.fin ((finPart v).map (fun x => Real.exp (x - m))).sum) := by
+  cases v with
+  | nil => exact absurd rfl hne
+  | cons e es =>
+    simp only [expSum]
+    rw [term_ext e (hv e (by simp)) m, foldSum_ext es hv.tail]
+    rcases hv e (by simp) with rfl | ⟨x, rfl⟩
+    · simp [finPart, termR]
+    · simp [finPart, termR]
+
+/-- `logSumExp` over finite values and log-zeros, at least one finite: the log-zeros contribute
+`exp(-∞) = 0`, the answer is the finite `ln Σ exp` over the finite entries -/
+theorem logSumExp_logzeros (v : List (Ext ℝ)) (hv : LogVals v) (hf : finPart v ≠ []) :
+    logSumExp v = .ok (Ext.fin (Real.log ((finPart v).map Real.exp).sum)) := by
+  have hne : v ≠ [] := by rintro rfl; exact hf rfl
+  by_cases h1 : v.length = 1
+  · obtain ⟨e, rfl⟩ := List.length_eq_one_iff.mp h1
+    rcases hv e (by simp) with rfl | ⟨x, rfl⟩
+    · exact absurd rfl hf
+    · simp [logSumExp, at?, finPart]
+  · obtain ⟨m, hm⟩ := vmax_defined (finPart v) hf
+    obtain ⟨hmem, hle⟩ := vmax_spec _ m hm
+    unfold logSumExp
+    rw [if_neg h1, vmax_ext v hv m hm]
+    simp only [bind, Except.bind, ext_isInf, Ext.isInf', Bool.false_eq_true, if_false, expSum_ext v hv hne m,
+      pure, Except.pure, ext_log, ext_add]
+    have hS : ((finPart v).map (fun x => Real.exp (x - m))).sum = ((shifted m (finPart v)).map Real.exp).sum := by
+      simp [shifted, List.map_map, Function.comp_def]
+    have hpos : 0 < ((finPart v).map (fun x => Real.exp (x - m))).sum := by
+      rw [hS, sum_exp_shift]; exact mul_pos (sum_exp_pos _ hf) (Real.exp_pos _)
+    rw [log'_fin_pos _ hpos]
+    simp only [Ext.add]
+    rw [hS, sum_exp_shift, Real.log_mul (sum_exp_pos _ hf).ne' (Real.exp_pos _).ne', Real.log_exp]
+    congr 2; ring
+
+/-- `logSumExp` of log-zeros only is log-zero -/
+theorem logSumExp_all_logzero (n : Nat) : logSumExp (List.replicate (n + 1) (Ext.ninf : Ext ℝ)) = .ok Ext.ninf := by
+  cases n with
+  | zero => simp [logSumExp, at?]
+  | succ k =>
+    have hl : LogVals (List.replicate (k + 1) (Ext.ninf : Ext ℝ)) := by
+      intro e he; exact Or.inl (List.eq_of_mem_replicate he)
+    have hfp : ∀ j, finPart (List.replicate j (Ext.ninf : Ext ℝ)) = [] := by
+      intro j; induction j with
+      | zero => rfl
+      | succ i ih => simp [List.replicate_succ, finPart, ih]
+    unfold logSumExp
+    have hlen : (List.replicate (k + 1 + 1) (Ext.ninf : Ext ℝ)).length ≠ 1 := by simp
+    rw [if_neg hlen]
+    have : vmax (List.replicate (k + 1 + 1) (Ext.ninf : Ext ℝ)) = .ok Ext.ninf := by
+      rw [List.replicate_succ]
+      simp only [vmax, extremum]
+      have := foldMax_ninf _ hl
+      rw [hfp] at this
+      exact congrArg Except.ok this
+    rw [this]
+    simp [bind, Except.bind, Ext.isInf', pure, Except.pure]
+end ExtLse
+
 end Bpp.LogSpace
